@@ -85,11 +85,12 @@ package fiber
 //@   requires wf-immutable: wfImmutable(c)
 //@   ensures [C06] immutable-stable: c.app.config.Immutable ==> stable(result) || orDefault(result, defaultValue)
 
+// (wf-immutable is a hypothesis of the C06 clause, not a precondition: the dispatch code calls this accessor too)
 //@ func (*DefaultCtx).getDetectionPath
 //@   props C06 C07
 //@   pure
-//@   requires wf-immutable: wfImmutable(c)
-//@   ensures [C06] immutable-stable: c.app.config.Immutable ==> stable(result)
+//@   ensures [C06] immutable-stable: wfImmutable(c) && c.app.config.Immutable ==> stable(result)
+//@   ensures [C01] is-the-detection-path: result == str(c.detectionPath)
 
 // c.pathOriginal is set by Reset through app.getString (and by Path(override) / SendFile from caller strings).
 //@ func (*DefaultCtx).getPathOriginal
@@ -102,10 +103,15 @@ package fiber
 // (ctxWF: structural invariant of a DefaultCtx, declared in zz_contracts_c05_verif.go; configDependentPaths needs it.)
 //@ func (*DefaultCtx).Path
 //@   props C06 C07
-//@   requires wf-immutable: wfImmutable(c)
-//@   requires ctx-wf: ctxWF(c)
-//@   ensures [C06] immutable-stable: old(c.app.config.Immutable) ==> stable(result)
-//@   ensures [C06] path-original-wf-kept: old(c.app.config.Immutable) && old(stable(c.pathOriginal)) && (len(override) == 0 || old(stable(override[0]))) ==> stable(c.pathOriginal)
+//@   requires ctx-wf: len(override) != 0 ==> ctxWF(c)
+//@   modifies c.pathOriginal, c.path, c.detectionPath, c.treePathHash, elems(c.path), elems(c.detectionPath), c.indexRoute
+//@   ensures [C01] no-override-only-reads: len(override) == 0 ==> result == str(c.path) && c.indexRoute == old(c.indexRoute) && c.pathOriginal == old(c.pathOriginal) && c.path == old(c.path) && c.detectionPath == old(c.detectionPath) &&
+//@ ..    c.treePathHash == old(c.treePathHash) && str(c.path) == old(str(c.path)) && str(c.detectionPath) == old(str(c.detectionPath))
+//@   ensures [C06] immutable-stable: old(wfImmutable(c)) && old(c.app.config.Immutable) ==> stable(result)
+//@   ensures [C06] path-original-wf-kept: old(wfImmutable(c)) && old(c.app.config.Immutable) && old(stable(c.pathOriginal)) && (len(override) == 0 || old(stable(override[0]))) ==> stable(c.pathOriginal)
+// C01: an override issued by a running handler (c.route set) leaves the scan cursor at the running route's registration
+// position in the bucket of the NEW path (macros in zz_contracts_c01idx_verif.go)
+//@   ensures [C01] scan-position-follows-the-override: len(override) != 0 && inDispatch(c) && old(cursorSplitsBucket(c)) && bucketSorted(c.app, c.methodInt, c.treePathHash) ==> cursorSplitsBucket(c)
 
 // Route(): the matched route (its strings belong to the app, not to the request) or, when nothing matched
 // yet, a new Route whose Path is the request's original path.
